@@ -227,3 +227,70 @@ def run(F, R, tier):
         R.check(rows == {"no entry", "value changed", "same value, count >= max_count", "same value, count < max_count"}, "C20.R3",
                 "C20.R3:%s:all-rows" % sv["id"], "-", "all four rows of the notifier table are present", "rows: %s" % sorted(rows))
         R.floor("C20.R3", len(ps), 3, "paths of update_service_state_entry")
+
+    # ------------------------------------------------------------------ R4 one observation = one step of the state machine
+    # the thresholds of R1/R2 are counted in update_state() calls; they are "consecutive observations" only if every health observation
+    # of the monitor loop performs exactly one call - on every path, through every helper
+    from lib import paths as P
+    R.rule("C20.R4", "every observation reporter called by the monitor loop performs exactly one update_state() on every path")
+    EXTC = "ProxyAgentExt"
+    memo = {}
+
+    def rng(fid, depth=5):
+        if fid in memo:
+            return memo[fid]
+        fn = F.fns.get(fid)
+        if fn is None or depth <= 0:
+            return (0, 0)
+        memo[fid] = (0, 0)
+        Bf = mir.Body(fn, F)
+        lo, hi = None, 0
+        try:
+            allp = P.enumerate_paths(Bf, allow_loops=True, max_paths=50000)
+        except P.TooManyPaths:
+            memo[fid] = (0, 99)
+            return memo[fid]
+        for p in allp:
+            a = 0
+            b = 0
+            for blk, _ in p:
+                t = Bf.blocks[blk]["term"]
+                if t["k"] != "call":
+                    continue
+                w, r = mir.callee_of(t)
+                c = r or w or ""
+                if c == mir.POLL:
+                    continue
+                if q.ends(c, "StatusState::update_state"):
+                    a += 1
+                    b += 1
+                elif c in F.fns and F.fns[c]["crate"] == EXTC:
+                    x = rng(c, depth - 1)
+                    a += x[0]
+                    b += x[1]
+            lo = a if lo is None else min(lo, a)
+            hi = max(hi, b)
+        memo[fid] = (lo or 0, hi)
+        return memo[fid]
+    mt = F.fns.get("ProxyAgentExt::service_main::monitor_thread::{closure#0}")
+    if not mt:
+        R.fail("C20.R4", "C20.R4:anchor-missing:monitor_thread", "-", "anchor-missing=ProxyAgentExt::service_main::monitor_thread::{closure#0}")
+    else:
+        Bm = mir.Body(mt, F)
+        R.touched(mt["id"])
+        reporters = []
+        for bi, w, r, t in Bm.calls:
+            c = r or w or ""
+            if w == mir.POLL or c not in F.fns or F.fns[c]["crate"] != EXTC:
+                continue
+            x = rng(c)
+            if x[1] > 0 and c not in reporters:
+                reporters.append(c)
+        for c in reporters:
+            x = rng(c)
+            R.touched(c)
+            R.check(x == (1, 1), "C20.R4", "C20.R4:%s:one-step-per-observation" % c, "%s:%s" % (F.fns[c]["file"], F.fns[c]["line"]),
+                    "%s: exactly one update_state() on every path (helpers included)" % c.rsplit("::", 1)[-1],
+                    "%s performs between %d and %d update_state() calls per observation: a single failed observation can count more than once "
+                    "(or not at all) towards the 20-failure threshold" % (c.rsplit("::", 1)[-1], x[0], x[1]))
+        R.floor("C20.R4", len(reporters), 2, "observation reporters called by the monitor loop")
